@@ -64,6 +64,7 @@ def judge(run, pid, results, also=()):
                               replay_of(ev))
             else:
                 other[prop] = other.get(prop, 0) + 1
+                run.foreign(prop, code, detail)
     if other:
         log("conjuncts of other properties failed in the same trace (not judged here): %s" % other)
     run.cov.setdefault("event_counts", {})
